@@ -9,6 +9,17 @@
 // two phases as separate events, so every placement of "expiry fired but not yet completed"
 // relative to the API calls is a schedule the suite can produce.
 //
+// Timers that fire DURING an API call (the caller holds p.mu; the callback has started and whatever
+// it does first that needs the lock waits): an API token may carry a suffix `@n/e/f1.f2…` — at the
+// n-th call the pool makes into a fake connection (Unblocked/Closed/Close) during that API call the
+// driver goroutine, still inside the call, advances the fake clock deadline by deadline up to the
+// deadline of entry e; f1.f2… are the entries whose callback started in that window (a stopped timer
+// does not fire).  synctest.Wait cannot be used while the driver holds p.mu (a callback blocked on a
+// sync.Mutex is not durably blocked), so quiescence inside the call is detected with stop-the-world
+// goroutine snapshots (settleMid).  A callback that starts during the call linearises before it
+// (the call had not read that timer yet, otherwise it would have stopped it); the model driver
+// replays `op@n/e/fired` as fire(f1),fire(f2),…, op, clock := deadline(e).
+//
 // One request = one scenario (configuration + events); the answer is the observation after every
 // event: what the call returned, both list walks and both stored counts ((*Pool).VerifWalk), and
 // who closed which connection how often.  The Lean model replays the same events.
@@ -17,9 +28,11 @@
 package pool
 
 import (
+	"bytes"
 	"context"
 	"fmt"
 	"os"
+	"runtime"
 	"sort"
 	"strconv"
 	"strings"
@@ -69,9 +82,12 @@ func (c *fconn) markClosed() {
 
 func (c *fconn) Close() error {
 	w := c.w
-	if w.inAPI.Load() {
+	// the pool proper (the driver goroutine is inside Put/Take/Close) or an expiry callback?  Decided
+	// by goroutine identity: with a timer firing in the middle of an API call both can be active.
+	if w.inAPI.Load() && goid() == w.driverG {
 		c.poolCloses++
 		c.markClosed()
+		w.hook()
 		return nil
 	}
 	// called by an expiry callback
@@ -88,8 +104,34 @@ func (c *fconn) Close() error {
 	return nil
 }
 
-func (c *fconn) Closed() <-chan struct{}    { return c.closedCh }
-func (c *fconn) Unblocked() <-chan struct{} { return c.unblocked }
+func (c *fconn) Closed() <-chan struct{} {
+	if c.w.mid != nil && goid() == c.w.driverG {
+		c.w.hook()
+	}
+	return c.closedCh
+}
+
+func (c *fconn) Unblocked() <-chan struct{} {
+	if c.w.mid != nil && goid() == c.w.driverG {
+		c.w.hook()
+	}
+	return c.unblocked
+}
+
+// goid returns the id of the calling goroutine ("goroutine 123 [running…").
+func goid() int64 {
+	var buf [48]byte
+	b := buf[:runtime.Stack(buf[:], false)]
+	b = bytes.TrimPrefix(b, []byte("goroutine "))
+	var n int64
+	for _, ch := range b {
+		if ch < '0' || ch > '9' {
+			break
+		}
+		n = n*10 + int64(ch-'0')
+	}
+	return n
+}
 func (c *fconn) Invoke(ctx context.Context, rpc string, enc drpc.Encoding, in, out drpc.Message) error {
 	return nil
 }
@@ -125,12 +167,16 @@ type world struct {
 	inAPI atomic.Bool
 	mu    sync.Mutex
 
+	driverG int64 // the goroutine that makes the API calls
+	mid     *midPlan
+
 	newParks []*park
 
 	// entries, in Put order (the ids the model uses)
 	entConn     []int
 	entDeadline []time.Time
 	entPark     []*park
+	entWaits    map[int]bool // the timer fired during a call and its callback went for the pool lock before closing
 	ticked      int
 
 	// caller-side bookkeeping for the conn-level oracles
@@ -154,7 +200,7 @@ type world struct {
 }
 
 func newWorld(o *corr.Out, cfg config) *world {
-	w := &world{o: o, cfg: cfg, proper: true, failed: map[string]bool{}, nc: nConns}
+	w := &world{o: o, cfg: cfg, proper: true, failed: map[string]bool{}, nc: nConns, driverG: goid()}
 	opts := drpcpool.Options{Capacity: cfg.cap, KeyCapacity: cfg.kcap}
 	if cfg.exp {
 		opts.Expiration = expiry
@@ -315,7 +361,219 @@ func (w *world) noteAPI() {
 	w.apiSeen = true
 }
 
-func (w *world) fired(e int) bool { return e >= 0 && e < len(w.entPark) && w.entPark[e] != nil }
+func (w *world) fired(e int) bool {
+	return e >= 0 && e < len(w.entPark) && (w.entPark[e] != nil || w.entWaits[e])
+}
+
+// ---- a timer fires in the middle of an API call
+
+// midPlan: at the n-th call the pool makes into a fake connection during the current API call, the
+// clock is advanced (inside the call) to the deadline of entry e.
+type midPlan struct {
+	n, e    int
+	calls   int
+	reached bool
+	from    int   // w.ticked when the window opened
+	fired   []int // entries whose callback started in the window
+}
+
+func (w *world) hook() {
+	m := w.mid
+	if m == nil || m.reached || !w.inAPI.Load() {
+		return
+	}
+	m.calls++
+	if m.calls != m.n {
+		return
+	}
+	if m.e < w.ticked || m.e >= len(w.entDeadline) {
+		return // nothing left to fire: the call runs as an ordinary one
+	}
+	m.reached = true
+	m.from = w.ticked
+	w.midAdvance(m)
+}
+
+// midAdvance runs on the driver goroutine INSIDE Put/Take/Close: deadline by deadline, sleep to it (the
+// driver's sleep and the entry's timer become due at the same fake instant), then wait until every
+// other goroutine of the bubble is parked (a callback of the code under test parks in the fake Close;
+// one that wants p.mu first is blocked on the mutex, which synctest.Wait would wait for forever).
+func (w *world) midAdvance(m *midPlan) {
+	for w.ticked <= m.e && w.ticked < len(w.entDeadline) {
+		i := w.ticked
+		if d := time.Until(w.entDeadline[i]); d > 0 {
+			time.Sleep(d)
+		}
+		stalled := w.settleMid()
+		for _, pk := range w.takeParks() {
+			w.attributeMid(m, pk, i)
+		}
+		w.ticked++
+		if stalled {
+			if w.entPark[i] == nil {
+				// the goroutine that appeared is the callback of entry i; it did not get as far as Close
+				if w.entWaits == nil {
+					w.entWaits = map[int]bool{}
+				}
+				w.entWaits[i] = true
+				m.fired = append(m.fired, i)
+			}
+			// somebody waits for a lock the driver holds: the bubble's clock cannot advance any further
+			// before the call returns. The window ends here.
+			m.e = i
+			w.o.Stat("midcall:callback-waited-for-the-lock")
+			break
+		}
+	}
+}
+
+// attributeMid: a callback started; it belongs to the entry whose deadline was just reached (prefer),
+// or — when it shows up later because it waited for the lock first — to an earlier entry of the window.
+func (w *world) attributeMid(m *midPlan, pk *park, prefer int) {
+	if prefer >= 0 && w.entConn[prefer] == pk.c.id && w.entPark[prefer] == nil {
+		w.entPark[prefer] = pk
+		m.fired = append(m.fired, prefer)
+		return
+	}
+	for i := range w.entWaits { // it got the lock and has now reached Close
+		if w.entConn[i] == pk.c.id && w.entPark[i] == nil {
+			w.entPark[i] = pk
+			return
+		}
+	}
+	for i := m.from; i < len(w.entConn) && i <= m.e; i++ {
+		if w.entConn[i] == pk.c.id && w.entPark[i] == nil && !w.deadlinePending(i) {
+			w.entPark[i] = pk
+			m.fired = append(m.fired, i)
+			return
+		}
+	}
+	w.fail("harness-timer-attribution", fmt.Sprintf("callback closing connection %d started during a call, no entry of the window [%d,%d] matches", pk.c.id, m.from, m.e))
+}
+
+func (w *world) deadlinePending(i int) bool { return time.Now().Before(w.entDeadline[i]) }
+
+var stackBuf = make([]byte, 1<<16)
+
+// bubbleQuiet: one stop-the-world snapshot; quiet = every goroutine of a synctest bubble other than the
+// caller is in a wait state that only another goroutine (or the bubble's clock) can end.
+func bubbleQuiet() (sig []byte, quiet, stalled bool) {
+	var n int
+	for {
+		n = runtime.Stack(stackBuf, true)
+		if n < len(stackBuf) {
+			break
+		}
+		stackBuf = make([]byte, 2*len(stackBuf))
+	}
+	buf := stackBuf[:n]
+	quiet = true
+	first := true
+	for len(buf) > 0 {
+		end := bytes.IndexByte(buf, '\n')
+		if end < 0 {
+			end = len(buf)
+		}
+		line := buf[:end]
+		if bytes.HasPrefix(line, []byte("goroutine ")) && bytes.HasSuffix(line, []byte("]:")) {
+			if first {
+				first = false // the caller
+			} else if bytes.Contains(line, []byte("synctest bubble")) {
+				open := bytes.IndexByte(line, '[')
+				state := line[open+1:]
+				if j := bytes.IndexAny(state, ",]"); j >= 0 {
+					state = state[:j]
+				}
+				sig = append(sig, line...)
+				ok := false
+				for _, p := range []string{"chan receive", "chan send", "select", "sync.Mutex.Lock", "sync.RWMutex.", "sync.Cond.Wait",
+					"sync.WaitGroup.Wait", "synctest.Run", "synctest.Wait", "sleep"} {
+					ok = ok || bytes.HasPrefix(state, []byte(p))
+				}
+				quiet = quiet && ok
+				stalled = stalled || !bytes.Contains(line, []byte("(durable)"))
+			}
+		}
+		next := bytes.Index(buf, []byte("\n\n"))
+		if next < 0 {
+			break
+		}
+		buf = buf[next+2:]
+	}
+	return sig, quiet, stalled
+}
+
+// settleMid waits for quiescence of the bubble (two identical quiet snapshots); stalled = some goroutine
+// is blocked in a way that is not durable in synctest's sense (a mutex): the fake clock will not move.
+func (w *world) settleMid() (stalled bool) {
+	for spin := 0; spin < 200000; spin++ {
+		sig, q, _ := bubbleQuiet()
+		if q {
+			keep := append([]byte(nil), sig...)
+			runtime.Gosched()
+			sig2, q2, st := bubbleQuiet()
+			if q2 && bytes.Equal(keep, sig2) {
+				return st
+			}
+		}
+		runtime.Gosched()
+	}
+	w.fail("harness-mid-settle", "the bubble did not become quiet while the driver was inside an API call")
+	return true
+}
+
+// splitMid parses `op@n/e` (a plan) or `op@n/e/f1.f2` (as recorded; the fired part is ignored).
+func splitMid(tok string) (base string, m *midPlan) {
+	i := strings.IndexByte(tok, '@')
+	if i < 0 {
+		return tok, nil
+	}
+	parts := strings.Split(tok[i+1:], "/")
+	if len(parts) < 2 {
+		panic("pool suite: bad token " + tok)
+	}
+	n, _ := strconv.Atoi(parts[0])
+	e, _ := strconv.Atoi(parts[1])
+	return tok[:i], &midPlan{n: n, e: e}
+}
+
+// afterAPI: the API call has returned; if it had a window, complete the token that describes it.
+func (w *world) afterAPI() {
+	if m := w.mid; m != nil {
+		tok := w.toks[len(w.toks)-1]
+		w.toks[len(w.toks)-1] = tok[:strings.IndexByte(tok, '@')] + w.endMid(m)
+	}
+}
+
+// endMid: after the API call returned. Returns the suffix of the executed token ("" when the window
+// never opened: the call was an ordinary one).
+func (w *world) endMid(m *midPlan) string {
+	w.mid = nil
+	if !m.reached {
+		w.o.Stat("midcall:window-not-opened")
+		return ""
+	}
+	// the lock is free again: a callback that was waiting for it runs on
+	synctest.Wait()
+	for _, pk := range w.takeParks() {
+		w.attributeMid(m, pk, -1)
+	}
+	sort.Ints(m.fired)
+	fs := "-"
+	if len(m.fired) > 0 {
+		ss := make([]string, len(m.fired))
+		for i, e := range m.fired {
+			ss[i] = strconv.Itoa(e)
+		}
+		fs = strings.Join(ss, ".")
+		w.timerBetween = true
+		w.o.Stat("midcall:timer-fired-inside-call")
+		w.noteTimer()
+	} else {
+		w.o.Stat("midcall:window-without-firing")
+	}
+	return fmt.Sprintf("@%d/%d/%s", m.n, m.e, fs)
+}
 
 // ---- events
 
@@ -327,8 +585,9 @@ func (w *world) put(k, v int) string {
 	}
 	creates := w.cfg.cap >= 0 && w.cfg.kcap >= 0 && !c.closed
 	w.noteAPI()
-	now := time.Now()
 	panicked := w.api(func() { w.p.Put(k, c) })
+	w.afterAPI()
+	now := time.Now() // the timer is created at the very end of Put (a window inside the call has passed by then)
 	w.everPut[v] = true
 	w.puts[v]++
 	w.held[v] = false
@@ -360,6 +619,7 @@ func (w *world) take(k int) string {
 		pre[i] = cstate{c.closed, c.blocked}
 	}
 	panicked := w.api(func() { got, ok = w.p.Take(k) })
+	w.afterAPI()
 	if panicked {
 		w.fail("no-panic", "Take panicked")
 		return "panic"
@@ -412,7 +672,9 @@ func (w *world) take(k int) string {
 
 func (w *world) closePool() string {
 	w.noteAPI()
-	if w.api(func() { _ = w.p.Close() }) {
+	panicked := w.api(func() { _ = w.p.Close() })
+	w.afterAPI()
+	if panicked {
 		w.fail("no-panic", "Close panicked")
 		return "panic"
 	}
@@ -421,7 +683,7 @@ func (w *world) closePool() string {
 }
 
 func (w *world) cbClose(e int) string {
-	if w.fired(e) && w.entPark[e].phase == 0 {
+	if e >= 0 && e < len(w.entPark) && w.entPark[e] != nil && w.entPark[e].phase == 0 {
 		pk := w.entPark[e]
 		pk.phase = 1
 		close(pk.a)
@@ -432,7 +694,7 @@ func (w *world) cbClose(e int) string {
 }
 
 func (w *world) cbRemove(e int) string {
-	if w.fired(e) && w.entPark[e].phase == 1 {
+	if e >= 0 && e < len(w.entPark) && w.entPark[e] != nil && w.entPark[e].phase == 1 {
 		pk := w.entPark[e]
 		pk.phase = 2
 		close(pk.b)
@@ -478,7 +740,16 @@ func (w *world) env(kind byte, v int) string {
 
 // exec runs one token, records the observation and evaluates the per-step oracles
 func (w *world) exec(tok string) {
+	tok, plan := splitMid(tok)
 	w.toks = append(w.toks, tok)
+	if plan != nil {
+		if !strings.ContainsRune("PTC", rune(tok[0])) {
+			panic("pool suite: window on a token that is not an API call: " + tok)
+		}
+		w.toks[len(w.toks)-1] = fmt.Sprintf("%s@%d/%d/?", tok, plan.n, plan.e) // shown if an oracle fails inside the call
+		w.mid = plan
+		w.o.Stat("midcall:" + map[byte]string{'P': "put", 'T': "take", 'C': "close"}[tok[0]])
+	}
 	var out string
 	num := func(s string) int { n, _ := strconv.Atoi(s); return n }
 	switch tok[0] {
@@ -687,7 +958,22 @@ func (w *world) entriesIn(phase int) []int {
 	return es
 }
 
+// randomOp: one random event; an API call gets, one time in four when some timer can still fire, a
+// window in which the clock passes 1-3 deadlines while the call is in progress.
 func (w *world) randomOp(nk, nc int) string {
+	tok := w.randomOp0(nk, nc)
+	r := w.o.Rand
+	if w.cfg.exp && w.ticked < len(w.entDeadline) && strings.ContainsRune("PTC", rune(tok[0])) && r.Intn(4) == 0 {
+		e := w.ticked + r.Intn(3)
+		if e >= len(w.entDeadline) {
+			e = len(w.entDeadline) - 1
+		}
+		tok += fmt.Sprintf("@%d/%d", 1+r.Intn(4), e)
+	}
+	return tok
+}
+
+func (w *world) randomOp0(nk, nc int) string {
 	r := w.o.Rand
 	for {
 		x := r.Intn(100)
@@ -831,6 +1117,46 @@ func enumerate(t *testing.T, o *corr.Out, cfg config, nsym, length int) {
 	rec(0)
 }
 
+// enumerateMid: every prefix of the given length over a 6-symbol alphabet (Put to 2 keys, Take, clock to
+// the next deadline, callback-close, block/unblock), then every API call (Close, Take from 2 keys, Put to
+// 2 keys) with a window opened at its 1st, 2nd or 3rd call into a connection and reaching the next or
+// the second next deadline.
+func enumerateMid(t *testing.T, o *corr.Out, cfg config, length int) {
+	alphabet := []int{0, 1, 2, 4, 5, 9}
+	seq := make([]int, length)
+	var rec func(i int)
+	rec = func(i int) {
+		if i == length {
+			for _, last := range []int{7, 2, 3, 0, 1} {
+				for n := 1; n <= 3; n++ {
+					for de := 0; de <= 1; de++ {
+						ran := false
+						inBubble(t, o, cfg, func(w *world) {
+							for _, s := range seq {
+								w.exec(w.resolve(s))
+							}
+							if w.ticked+de >= len(w.entDeadline) {
+								return // no such timer
+							}
+							ran = true
+							w.exec(fmt.Sprintf("%s@%d/%d", w.resolve(last), n, w.ticked+de))
+						})
+						if ran {
+							o.Stat("scenario:enumerated-midcall")
+						}
+					}
+				}
+			}
+			return
+		}
+		for _, s := range alphabet {
+			seq[i] = s
+			rec(i + 1)
+		}
+	}
+	rec(0)
+}
+
 func suite(t *testing.T, o *corr.Out) {
 	// corpus: the scenarios of the repaired defects and their neighbours (regression oracles)
 	lastObs := func(w *world) string { return w.obs[len(w.obs)-1] }
@@ -866,6 +1192,15 @@ func suite(t *testing.T, o *corr.Out) {
 		{config{0, 0, true}, "P00,P01,P02,B0,E1,F2,T0,U0,T0,T0", "", nil},
 		// the same connection put twice (a caller that breaks the protocol)
 		{config{0, 0, true}, "P00,P00,F0,T0,X0,R0,X1,R1,T0", "", nil},
+		// a timer fires while a call is in progress: Close is closing the older entry when the younger
+		// one expires; Take is asking a connection whether it is unblocked when it / its neighbours expire;
+		// Put is evicting when the other key's entry expires
+		{config{0, 0, true}, "P00,P11,C@1/1,X1,R1,T1", "", nil},
+		{config{0, 0, true}, "P00,P11,P12,C@2/2,P03,X2,R2,X1,R1,T0", "", nil},
+		{config{0, 0, true}, "P00,P11,P12,T1@1/2,X1,R1,T1,X2,R2", "", nil},
+		{config{0, 0, true}, "P00,P01,T0@2/1,T0", "", nil},
+		{config{2, 1, true}, "P00,P11,P02@2/1,X1,R1,T1,T0", "", nil},
+		{config{1, 0, true}, "P00,P11@1/0,T0,T1", "", nil},
 	} {
 		inBubble(t, o, c.cfg, func(w *world) {
 			for _, tok := range strings.Split(c.toks, ",") {
@@ -893,6 +1228,15 @@ func suite(t *testing.T, o *corr.Out) {
 			n = length - 1
 		}
 		enumerate(t, o, cfg, 10, n)
+	}
+	for _, cfg := range []config{{0, 0, true}, {2, 1, true}, {1, 0, true}} {
+		n := 3
+		if o.Thorough {
+			n = 4
+		} else if cfg == (config{1, 0, true}) {
+			n = 2
+		}
+		enumerateMid(t, o, cfg, n)
 	}
 
 	// random scenarios
